@@ -48,6 +48,8 @@ const SNIPPETS: &[&str] = &[
 pub struct Case {
     body: String,
     meta: bool,
+    /// spelling of the meta tag line when `meta` (`---@meta`, `---@meta _`, `---@meta no-require`, `---@meta name`, …)
+    meta_line: String,
     file_enable: Vec<String>,
     file_disable: Vec<String>,
     disable: Vec<String>,
@@ -67,7 +69,8 @@ impl Case {
         if self.meta {
             // kept in the raw text too: `---@meta` also changes the analysis itself (e.g. duplicate classes);
             // the raw run of a meta case is placed outside every workspace, where the meta gate is inert
-            t.push_str("---@meta\n");
+            t.push_str(if self.meta_line.is_empty() { "---@meta" } else { &self.meta_line });
+            t.push('\n');
         }
         for c in &self.file_enable {
             t.push_str(&format!("{tag}diagnostic enable: {c}\n"));
@@ -99,7 +102,7 @@ impl Case {
         })
     }
     fn to_json(&self) -> Value {
-        json!({"body_hex": hex(&self.body), "text": self.text(false), "meta": self.meta, "file_enable": self.file_enable,
+        json!({"body_hex": hex(&self.body), "text": self.text(false), "meta": self.meta, "meta_line": self.meta_line, "file_enable": self.file_enable,
             "file_disable": self.file_disable, "rc": self.rc_json(), "level": self.level, "place": self.place.to_string()})
     }
     fn from_json(v: &Value) -> Case {
@@ -116,6 +119,7 @@ impl Case {
         Case {
             body: vh_common::unhex(v["body_hex"].as_str().unwrap_or("-")).unwrap_or_default(),
             meta: v["meta"].as_bool().unwrap_or(false),
+            meta_line: v["meta_line"].as_str().unwrap_or("---@meta").to_string(),
             file_enable: strs(&v["file_enable"]),
             file_disable: strs(&v["file_disable"]),
             disable: strs(&d["disable"]),
@@ -163,20 +167,43 @@ fn gen_case(rng: &mut Rng, names: &[String], n: u32) -> Case {
     }
     let globals = (0..rng.below(3)).map(|_| format!("{}{}", rng.pick(&["g", "h", "print", "assert"]), rng.below(10))).collect::<Vec<_>>();
     let globals = globals.into_iter().map(|g| if g.starts_with("print") { "print".into() } else if g.starts_with("assert") { "assert".into() } else { g }).collect();
-    let globals_regex = (0..rng.below(3)).map(|_| rng.pick(&["^g[0-4]$", "^h", "[13579]$", "^pr", "^(g|h)7$", "("]).to_string()).collect();
+    const VALID_RE: &[&str] = &["^g[0-4]$", "^h", "[13579]$", "^pr", "^(g|h)7$", "^g"];
+    const INVALID_RE: &[&str] = &["(", "[A-Z", "*a", "g{2"];
+    let mut globals_regex: Vec<String> = (0..rng.below(4))
+        .map(|_| if rng.chance(1, 4) { rng.pick(INVALID_RE).to_string() } else { rng.pick(VALID_RE).to_string() })
+        .collect();
+    if rng.chance(1, 5) {
+        // an invalid pattern next to valid ones: the valid ones must keep working
+        globals_regex = vec![rng.pick(INVALID_RE).to_string(), rng.pick(VALID_RE).to_string()];
+        if rng.chance(1, 2) {
+            globals_regex.reverse();
+        }
+        globals_regex.push(rng.pick(VALID_RE).to_string());
+    }
+    let meta = rng.chance(1, 4);
+    let meta_line = rng
+        .pick(&[
+            "---@meta", "---@meta", "---@meta _", "---@meta no-require", "---@meta mylib", "---@meta my.lib.sub", "---@meta case",
+            "---@meta mylib some trailing text", "---@meta _ trailing", "--- @meta mylib", "---@meta  spaced.name",
+        ])
+        .to_string();
+    // meta cases: mostly bare configurations (default / only `enables`), so that nothing but the meta gate hides the output
+    let bare = meta && rng.chance(2, 3);
+    let with_enables = rng.chance(1, 2);
     Case {
         body,
-        meta: rng.chance(1, 8),
-        file_enable: if rng.chance(1, 4) { pick_codes(rng, names, 2) } else { vec![] },
-        file_disable: if rng.chance(1, 4) { pick_codes(rng, names, 2) } else { vec![] },
-        disable: pick_codes(rng, names, 5),
-        enables: pick_codes(rng, names, 5),
+        meta,
+        meta_line,
+        file_enable: if !bare && rng.chance(1, 4) { pick_codes(rng, names, 2) } else { vec![] },
+        file_disable: if !bare && rng.chance(1, 4) { pick_codes(rng, names, 2) } else { vec![] },
+        disable: if bare { vec![] } else { pick_codes(rng, names, 5) },
+        enables: if bare && !with_enables { vec![] } else { pick_codes(rng, names, 5) },
         severity,
         globals,
         globals_regex,
-        enable: !rng.chance(1, 20),
-        level: *rng.pick(&[7usize, 7, 7, 7, 6, 6, 5, 4, 2, 0]),
-        place: *rng.pick(&['m', 'm', 'm', 'm', 'm', 'm', 'l', 'r', 's', 'o']),
+        enable: bare || !rng.chance(1, 20),
+        level: if bare { 7 } else { *rng.pick(&[7usize, 7, 7, 7, 6, 6, 5, 4, 2, 0]) },
+        place: if bare { *rng.pick(&['m', 'm', 'm', 'l', 'o']) } else { *rng.pick(&['m', 'm', 'm', 'm', 'm', 'm', 'l', 'r', 's', 'o']) },
     }
 }
 
@@ -276,6 +303,10 @@ pub fn run(args: &Args, report: &mut Report) {
         report.count(&format!("place:{}", case.place));
         if case.meta {
             report.count("meta");
+            report.count(&format!("meta:{}@{}", case.meta_line.trim_start_matches("---").trim(), case.place));
+        }
+        if case.globals_regex.iter().any(|r| regex::Regex::new(r).is_err()) && case.globals_regex.iter().any(|r| regex::Regex::new(r).is_ok()) {
+            report.count("globalsRegex:invalid+valid");
         }
         if !case.enable {
             report.count("enable=false");
@@ -433,8 +464,19 @@ pub fn run(args: &Args, report: &mut Report) {
                 }
             }
         }
+        // meta files report nothing. Narrow exceptions (open findings): a file outside every workspace root, and
+        // codes the file itself enables with `---@diagnostic enable`.
+        let mut meta_class: Option<&'static str> = None;
         if case.meta && !out.is_empty() {
-            fails.push(format!("meta file reports {} diagnostics, e.g. {}", out.len(), out[0].code));
+            if case.place == 'o' {
+                meta_class = Some("meta-outside-workspace");
+                fails.push(format!("meta file ({}) outside every workspace reports {} diagnostics, e.g. {}", case.meta_line, out.len(), out[0].code));
+            } else if let Some(d) = out.iter().find(|d| !case.file_enable.contains(&d.code)) {
+                fails.insert(0, format!("meta file ({}) reports {} diagnostics, e.g. {} which the file does not enable", case.meta_line, out.len(), d.code));
+            } else {
+                meta_class = Some("meta-file-enable");
+                fails.push(format!("meta file ({}) reports {} diagnostics of codes it enables itself, e.g. {}", case.meta_line, out.len(), out[0].code));
+            }
         }
         if matches!(case.place, 'l' | 'r' | 's') && !out.is_empty() {
             fails.push(format!("file in a non-main workspace ({}) reports {} diagnostics", case.place, out.len()));
@@ -443,13 +485,8 @@ pub fn run(args: &Args, report: &mut Report) {
             fails.push(format!("diagnostics.enable = false but {} diagnostics reported", out.len()));
         }
         if let Some(first) = fails.first() {
-            let class = if case.meta && case.place == 'o' {
-                Some("meta-outside-workspace")
-            } else if case.meta && !case.file_enable.is_empty() {
-                Some("meta-file-enable")
-            } else {
-                None
-            };
+            // classified only when the meta exception is the *only* thing wrong with the output
+            let class = if fails.len() == 1 { meta_class } else { None };
             let key = format!("oracle_class:{}", class.unwrap_or("unclassified"));
             report.count(&key);
             if report.distribution[&key] <= 8 {
@@ -466,6 +503,7 @@ fn corpus() -> Vec<Case> {
     let base = Case {
         body: "g1()\nlocal u1 = 1\n---@foobar\nassert(g2)\n".into(),
         meta: false,
+        meta_line: "---@meta".into(),
         file_enable: vec![],
         file_disable: vec![],
         disable: vec![],
@@ -487,6 +525,14 @@ fn corpus() -> Vec<Case> {
         Case { globals: s(&["g1"]), globals_regex: s(&["^g2$"]), ..base.clone() },
         Case { meta: true, ..base.clone() },
         Case { meta: true, file_enable: s(&["undefined-global"]), ..base.clone() },
+        Case { meta: true, meta_line: "---@meta _".into(), ..base.clone() },
+        Case { meta: true, meta_line: "---@meta no-require".into(), ..base.clone() },
+        Case { meta: true, meta_line: "---@meta mylib".into(), ..base.clone() },
+        Case { meta: true, meta_line: "---@meta my.lib.sub".into(), enables: s(&["unknown-doc-tag", "missing-global-doc"]), ..base.clone() },
+        Case { meta: true, meta_line: "---@meta mylib trailing text".into(), ..base.clone() },
+        Case { meta: true, meta_line: "---@meta mylib".into(), place: 'l', ..base.clone() },
+        Case { globals_regex: s(&["[A-Z", "^g1$"]), ..base.clone() },
+        Case { globals_regex: s(&["^g2$", "(", "^g1$"]), ..base.clone() },
         Case { place: 'l', ..base.clone() },
         Case { place: 's', ..base.clone() },
         Case { enable: false, ..base.clone() },
